@@ -510,6 +510,41 @@ def check(ctx):
         if shifts and shifts != {7}:
             ctx.violation('C03.R8', rel, f, Model.qual(f), 'base-128 encoder must shift by 7 bits per octet, found %s' % sorted(shifts), stmt='shift width')
 
+    # ---- R9: the conversion helpers (restricted_utc_time_from_datetime, ...) normalise the instant themselves (move it to UTC, cut the fraction).  A caller that also adjusts
+    #      the value before handing it over applies the adjustment twice: `data -= data.utcoffset()` keeps the tzinfo, so the helper subtracts the offset again.
+    ctx.rule('C03.R9', 'time values reach the *_from_datetime conversion unmodified (the helper owns the normalisation to UTC)')
+    n9 = 0
+    for rel in (DER, BER):
+        for c in model.mod(rel).classes.values():
+            for f in c.methods.values():
+                calls = [x_ for x_ in walk_no_nested(f) if isinstance(x_, ast.Call) and isinstance(x_.func, ast.Name) and x_.func.id.endswith('_from_datetime') and x_.args]
+                if not calls:
+                    continue
+                params = [p_ for p_ in flow.param_names(f) if p_ != 'self']
+                for x_ in calls:
+                    n9 += 1
+                    a_ = x_.args[0]
+                    mods = []
+                    if isinstance(a_, ast.Name):
+                        mods = [y_ for y_ in walk_no_nested(f) if (isinstance(y_, ast.AugAssign) and isinstance(y_.target, ast.Name) and y_.target.id == a_.id)
+                                or (isinstance(y_, ast.Assign) and any(isinstance(t_, ast.Name) and t_.id == a_.id for t_ in y_.targets) and a_.id in params)]
+                    ok = isinstance(a_, ast.Name) and a_.id in params and not mods
+                    arith = not isinstance(a_, ast.Name) and any(isinstance(y_, (ast.BinOp, ast.Call)) for y_ in ast.walk(a_))
+                    # arithmetic on the instant is what doubles; a re-binding through a method (astimezone) is left undecided
+                    shifted = [y_ for y_ in mods if isinstance(y_, ast.AugAssign) or isinstance(y_.value, ast.BinOp)]
+                    arith = arith and any(isinstance(y_, ast.BinOp) and isinstance(y_.op, (ast.Add, ast.Sub)) for y_ in ast.walk(a_))
+                    mods = shifted
+                    verdict = 'ok' if ok else ('VIOLATION' if mods or arith else 'undecided')
+                    ctx.instance('C03.R9', '%s hands %s to %s' % (Model.qual(f), ast.unparse(a_)[:40], x_.func.id), verdict, node=x_, file=rel)
+                    if verdict == 'VIOLATION':
+                        at_ = mods[0] if mods else x_
+                        ctx.violation('C03.R9', rel, at_, Model.qual(f),
+                                      'the value is adjusted (`%s`) before it is handed to %s, which moves a time-zone-aware value to UTC itself: subtracting the offset keeps the tzinfo, so the '
+                                      'offset is applied twice and the emitted time is not the DER form of the value (12:00+02:00 becomes 08:00Z)'
+                                      % (norm_stmt(at_) if mods else ast.unparse(a_)[:60], x_.func.id), stmt='time adjusted before conversion')
+    if n9 < 4:
+        raise AnalysisError('C03.R9 found only %d time conversions in ber.py / der.py' % n9)
+
 
 MUTANTS = [
     dict(name='DER OCTET STRING encodes with the constructed tag', file=DER, quick=True,
